@@ -32,8 +32,6 @@ def run(res, tier, only=None):
             raise Inconclusive("socks-run errors: " + "; ".join(s["errors"][:3]))
         if s["cases"] != len(g["vout"]) or s["served"] == 0:
             raise Inconclusive(f"socks-run ran {s['cases']} of {len(g['vout'])} cases, {s['served']} served (vacuous?)")
-        if s.get("server_sequence_served", 0) * 4 != s.get("server_sequence_connections", -1):
-            raise Inconclusive(f"server sequence: {s.get('server_sequence_served')} legitimate sessions served out of {s.get('server_sequence_connections')} connections (vacuous?)")
         n, bad, st = validate_traces(tmp, tr, "socks_traces.ndjson", "L4Socks5Trace.tla", "L4Socks5Trace.cfg")
         cov.update(states=g["distinct"], transitions=g["generated"], traces_validated_against_impl=n,
                    cases=dict(enumerated=len(g["vout"]), served_by_real_handler=s["served"], reference_allows=s["may_serve"],
@@ -52,6 +50,9 @@ def run(res, tier, only=None):
                 continue
             sig = "socks:cmd%d:" % t["sc"]["cmd"] + ("authreq" if t["cfg"]["creds"] else "noauth") + ":" + t["sc"]["auth"] + ":" + "+".join(sorted(x.split()[0] for x in cl))
             res.violation(sig, "; ".join(cl) + f" (trace {b['id']}: cfg {t['cfg']} script {t['sc']})", t)
+        # vacuity of the server sequence - only when nothing was reported (a defect may well be the reason)
+        if not res.violations and s.get("server_sequence_served", 0) * 4 != s.get("server_sequence_connections", -1):
+            raise Inconclusive(f"server sequence: {s.get('server_sequence_served')} legitimate sessions served out of {s.get('server_sequence_connections')} connections (vacuous?)")
         if only is not None:
             return dict(cases=len(g["vout"]))
     res.assumptions += ["the client side is a scripted RFC 1928/1929 byte sequence over net.Pipe; outbound effect = a TCP connection accepted by the harness's loopback target, or a success reply to ASSOCIATE (an unannounced listener would be invisible)",
